@@ -120,6 +120,11 @@ def extra_programs():
     E['recursion-in-later-argument-of-builtin'] = f'{VAR} row = [3, 9, 4, 7, 1];\n{FUN} biggest(i) {{ {IF} (i == {N["len"]}(row) - 1) {{ {RET} row[i]; }} {RET} {N["max"]}(row[i], biggest(i + 1)); }}\n{P} biggest(0);\n{FUN} pair(a, b) {{ {RET} [a, b]; }}\n{FUN} nest(n) {{ {IF} (n == 0) {{ {RET} "leaf"; }} {RET} pair(n, nest(n - 1)); }}\n{P} nest(3);\n'
     E['ackermann'] = f'{FUN} ack(m, n) {{ {IF} (m == 0) {{ {RET} n + 1; }} {IF} (n == 0) {{ {RET} ack(m - 1, 1); }} {RET} ack(m - 1, ack(m, n - 1)); }}\n{P} ack(2, 2);\n{P} ack(2, 3);\n'
     E['arguments-survive-inner-call'] = f'{FUN} three(a, b, c) {{ {RET} [a, b, c]; }}\n{FUN} deep(n) {{ {IF} (n == 0) {{ {RET} three("x", "y", "z"); }} {RET} three(n, deep(n - 1), n * 10); }}\n{P} deep(2);\n'
+    # --- the increment of a `ফর` loop runs after a round that ended normally or by continue, and only then
+    E['increment-with-effects'] = (f'{VAR} LOG = [];\n{VAR} G = 0;\n{FUN} find(n) {{ {FOR} ({VAR} j = 0; j < 5; LOG = {N["append"]}(LOG, j = j + 1)) {{ {IF} (j == n) {{ {RET} j; }} {IF} (j == 1) {{ {CONT}; }} G = G + 1; }} {RET} 0 - 1; }}\n'
+                                   f'{P} find(2);\n{P} LOG;\n{P} G;\n{P} find(9);\n{P} LOG;\n{FUN} stop(n) {{ {FOR} ({VAR} j = 0; j < 5; G = G + 100) {{ {IF} (j == n) {{ {BRK}; }} j = j + 1; }} {RET} n; }}\n{P} stop(2);\n{P} G;\n'
+                                   f'{FUN} nested(n) {{ {FOR} ({VAR} a = 0; a < 3; G = G + 1000) {{ {FOR} ({VAR} b = 0; b < 3; G = G + 10000) {{ {IF} (a + b == n) {{ {RET} [a, b]; }} b = b + 1; }} a = a + 1; }} {RET} nil; }}\n{P} nested(3);\n{P} G;\n')
+    E['increment-that-fails'] = f'{FUN} f() {{ {FOR} ({VAR} j = 0; j < 3; j = j + nosuch) {{ {RET} "returned"; }} {RET} "fell out"; }}\n{P} f();\n{FUN} g() {{ {FOR} ({VAR} j = 0; j < 3; j = j + nosuch) {{ {BRK}; }} {RET} "broke"; }}\n{P} g();\n{P} "end";\n'
     return [(k, v) for k, v in E.items()]
 
 def reexec_programs(tier='quick'):
